@@ -156,10 +156,28 @@ def run(ctx):
                   and compare_norm(g.switch_cond(b)) and str(mask + 1) in show_norm(compare_norm(g.switch_cond(b)))]
         ck.ob("R14c", A + name + "|small bound", len(bounds) == 1 and bounds[0].startswith("-") and bounds[0].endswith(f" +{mask + 1} >0") and bounds[0].count(" +") == 1, "values <= NODE_PTR_IDX_MASK take the inline form",
               site=g.where(0), detail=bounds)
-        strip_tests = sorted(show_norm(compare_norm(g.switch_cond(b))) for b in g.reachable_blocks() if g.term(b)["k"] == "switch"
-                             and compare_norm(g.switch_cond(b)) and "slice" in show_norm(compare_norm(g.switch_cond(b))))
-        ck.ob("R14c", A + name + "|minimal", strip_tests == ["+(slice[1] BitAnd 128) -128 ==0", "+len(slice) -1 >0", "+slice[0] ==0"],
-              "a leading zero byte is stripped unless the next byte has its sign bit set (minimal two's complement)", site=g.where(0), detail=strip_tests)
+        # the stripping loop: in the constructor itself or in a private slice -> slice helper it calls (names removed)
+        import re as _re
+
+        def strip_tests_of(h):
+            out = []
+            for b in h.reachable_blocks():
+                if h.term(b)["k"] != "switch":
+                    continue
+                n = compare_norm(h.denamed(h.switch_cond(b)))
+                if not n:
+                    continue
+                t = _re.sub(r"#\d+", "", show_norm(n))
+                if "&[u8]" in t:
+                    out.append(t.replace("%&[u8]", "S").replace("$1", "S"))
+            return sorted(out)
+        cands = [g] + [cr.fns[c] for c in sorted({t.get("callee") for _, t in g.calls()} - {None}) if c in cr.fns
+                       and cr.fns[c].nargs == 1 and cr.fns[c].local_ty(1).replace("'_ ", "").startswith("&[u8]")]
+        got = {h.path: strip_tests_of(h) for h in cands}
+        want = ["+(S[1] BitAnd 128) -128 ==0", "+S[0] ==0", "+len(S) -1 >0"]
+        hits = [p_ for p_, v in got.items() if v == want]
+        ck.ob("R14c", A + name + "|minimal", len(hits) == 1,
+              "a leading zero byte is stripped unless the next byte has its sign bit set (minimal two's complement)", site=g.where(0), detail=got)
 
     # ---------------------------------------------------------------- R14d
     f, g = cr.fn(A + "new_number"), cr.fn(A + "new_malachite_number")
@@ -194,6 +212,57 @@ def run(ctx):
     ck.ob("R14e", A + "atom_eq", len(mixed) == 2 and slice_eq,
           "same-kind atoms compare by bytes / by value; mixed kinds through bytes_eq_int (both orders)", site=ae.where(0),
           detail=[c for c in calls if "index" not in c.lower()][:12])
+    # every value atom_eq can return is one of the three comparisons (no shortcut returns a constant)
+    rets = []
+    for b in ae.reachable_blocks():
+        for st in ae.stmts(b):
+            if st.get("d") and st["d"]["l"] == 0 and not st["d"]["p"] and "rv" in st:
+                rets.append(show(ae.denamed(ae.expr_rvalue(st["rv"]))))
+        t = ae.term(b)
+        if t["k"] == "call" and t["dst"]["l"] == 0 and not t["dst"]["p"]:
+            rets.append("call " + (t.get("callee") or "?").split("::")[-1])
+    kinds = []
+    for r in rets:
+        if r.startswith("call bytes_eq_int"):
+            kinds.append("mixed")
+        elif r.startswith("call ") and ("eq" in r or "ne" in r):
+            kinds.append("bytes")
+        elif " Eq " in r and "NodePtr::index" in r:
+            kinds.append("inline")
+        elif "PartialEq" in r or "::eq(" in r:
+            kinds.append("bytes")
+        else:
+            kinds.append("other: " + r[:80])
+    ck.ob("R14e", A + "atom_eq|returns", sorted(kinds) == ["bytes", "inline", "mixed", "mixed"],
+          "atom_eq returns only: the slice comparison (heap/heap), index equality (inline/inline), bytes_eq_int (mixed, both orders)",
+          site=ae.where(0), detail=sorted(kinds))
+    # small_number: inline -> Some(value); heap -> fits_in_small_atom(the atom's bytes) and nothing else; pair -> None
+    sn = cr.fn(A + "small_number")
+    ck.analysed(sn)
+    arms = {}
+    for b in sn.reachable_blocks():
+        dv = sn.discr_variants(b)
+        if dv and (sn.discr_enum(b) or "").endswith("ObjectType"):
+            for tgt, v in sn.succ(b):
+                arms[dv.get(v, "otherwise") if v != "otherwise" else "otherwise"] = tgt
+    by_arm = {}
+    for b in sn.reachable_blocks():
+        vals = []
+        for st in sn.stmts(b):
+            if st.get("d") and st["d"]["l"] == 0 and not st["d"]["p"] and "rv" in st:
+                vals.append(show(sn.denamed(sn.expr_rvalue(st["rv"], deep=False))))
+        t = sn.term(b)
+        if t["k"] == "call" and t["dst"]["l"] == 0 and not t["dst"]["p"]:
+            vals.append("call " + (t.get("callee") or "?"))
+        for v in vals:
+            arm = [a for a, tgt in arms.items() if tgt == b or sn.dominates(tgt, b)]
+            by_arm.setdefault(arm[0] if arm else "?", []).append(v)
+    want_heap = ["call allocator::fits_in_small_atom"]
+    ok_sn = by_arm.get("Bytes") == want_heap and all("Some(" in v for v in by_arm.get("SmallAtom", ["x"])) and len(by_arm.get("SmallAtom", [])) == 1 \
+        and set(by_arm) <= {"Bytes", "SmallAtom", "otherwise", "Pair"}
+    ck.ob("R14c", A + "small_number|arms", ok_sn,
+          "small_number: inline atoms give their value, heap atoms exactly fits_in_small_atom(bytes) (no other exit in that arm), pairs None",
+          site=sn.where(0), detail=by_arm)
     be = cr.fn(A + "bytes_eq_int")
     tests = [show_norm(compare_norm(be.switch_cond(b))) for b in sorted(be.reachable_blocks()) if be.term(b)["k"] == "switch" and compare_norm(be.switch_cond(b))]
     ok = len(tests) == 3 and tests[0] in ("+atom.end -atom.start -len !=0", "+allocator::len_for_value(val) -atom.end +atom.start !=0",
